@@ -16,6 +16,12 @@ def run(model, rep, tier):
         r3_only_negated_default(ctx, rep, *lists)
     r4_single_point_of_use(ctx, rep)
     r5_use_polarity(ctx, rep)
+    # the positional MODULE [TEST] filters reach the pattern lists and restrict them (shared with C03.R10)
+    from . import c03 as _c03
+    _c03.r10_positional_filters(ctx, rep, R='C08.R4')
+    from . import lifetime
+    rep.rule('C08.R6', "each run sees only its own inputs (rules/lifetime.py): no function of the package is memoised across runs (functools.lru_cache / cache), module-level containers that functions add to are emptied at the start of a run, no mutable class attribute is shared through instances (mutated in place or handed out without being re-bound per instance), and no option with a mutable argparse default is mutated in place after parsing -- a second run in the same process (other layer objects under the same names, other outcomes, other filters) must not inherit the first run's state")
+    lifetime.check(ctx, rep, 'C08.R6')
     rep.units['cfg'] = ctx.cfg_stats
 
 
